@@ -106,6 +106,7 @@ type Exec struct {
 	usedExt map[string]bool
 	inlined map[string]bool
 	cellN   int
+	cellCache map[*ssa.Alloc]bool
 }
 
 const maxForks = 6000
@@ -445,7 +446,7 @@ func (x *Exec) simple(st *State, fr *Frame, in ssa.Instruction) {
 			fr.vals[in] = Val{K: KPtr, Typ: in.Type(), Ptr: &Pointer{Heap: key, Rows: true, Elem: a.Elem(), Root: root, Idx: "0", ArrLen: a.Len(), IsArr: true, Fresh: true}}
 			return
 		}
-		if !in.Heap {
+		if !in.Heap || x.cellable(in) {
 			x.cellN++
 			c := &Cell{id: x.cellN, typ: elem}
 			fr.cells[in] = c
@@ -1088,4 +1089,139 @@ func (x *Exec) arith(t types.Type, op string, a, b Val) Val {
 	}
 	res.T = x.wrap(t, term)
 	return res
+}
+
+// cellable reports whether a heap-allocated variable can be kept as a path-local cell:
+// its address is only dereferenced, offset into, or passed by reference to callees that
+// are handled by contract or inlining; it is never stored, returned, merged or boxed.
+func (x *Exec) cellable(a *ssa.Alloc) bool {
+	if v, ok := x.cellCache[a]; ok {
+		return v
+	}
+	var ok func(v ssa.Value, depth int) bool
+	ok = func(v ssa.Value, depth int) bool {
+		if depth > 8 {
+			return false
+		}
+		refs := v.Referrers()
+		if refs == nil {
+			return false
+		}
+		for _, u := range *refs {
+			switch u := u.(type) {
+			case *ssa.DebugRef:
+			case *ssa.UnOp:
+				if u.Op != token.MUL {
+					return false
+				}
+			case *ssa.Store:
+				if u.Val == v {
+					return false
+				}
+			case *ssa.FieldAddr:
+				if !ok(u, depth+1) {
+					return false
+				}
+			case ssa.CallInstruction:
+				cc := u.Common()
+				if cc.IsInvoke() {
+					return false
+				}
+				if _, isB := cc.Value.(*ssa.Builtin); isB {
+					return false
+				}
+				callee := cc.StaticCallee()
+				if callee == nil {
+					return false
+				}
+				if _, isDefer := u.(*ssa.Defer); isDefer {
+					return false
+				}
+				if _, isGo := u.(*ssa.Go); isGo {
+					return false
+				}
+				if con := x.P.contractOf(callee); con != nil && !con.Inline {
+					continue
+				}
+				if _, inrepo := x.P.fnKey[callee]; !inrepo {
+					return false
+				}
+				// inlined callee: the parameter must itself be used in a cell-compatible way
+				for i, arg := range cc.Args {
+					if arg == v {
+						if i >= len(callee.Params) || !x.paramCellable(callee.Params[i], depth+1) {
+							return false
+						}
+					}
+				}
+			default:
+				return false
+			}
+		}
+		return true
+	}
+	if x.cellCache == nil {
+		x.cellCache = map[*ssa.Alloc]bool{}
+	}
+	r := ok(a, 0)
+	x.cellCache[a] = r
+	return r
+}
+
+func (x *Exec) paramCellable(p *ssa.Parameter, depth int) bool {
+	if depth > 8 {
+		return false
+	}
+	refs := p.Referrers()
+	if refs == nil {
+		return true
+	}
+	var ok func(v ssa.Value, d int) bool
+	ok = func(v ssa.Value, d int) bool {
+		if d > 8 {
+			return false
+		}
+		for _, u := range *v.Referrers() {
+			switch u := u.(type) {
+			case *ssa.DebugRef:
+			case *ssa.UnOp:
+				if u.Op != token.MUL {
+					return false
+				}
+			case *ssa.Store:
+				if u.Val == v {
+					return false
+				}
+			case *ssa.FieldAddr:
+				if !ok(u, d+1) {
+					return false
+				}
+			case *ssa.BinOp:
+				// comparison with nil
+			case ssa.CallInstruction:
+				cc := u.Common()
+				callee := cc.StaticCallee()
+				if cc.IsInvoke() || callee == nil {
+					return false
+				}
+				if con := x.P.contractOf(callee); con != nil && !con.Inline {
+					continue
+				}
+				if _, inrepo := x.P.fnKey[callee]; !inrepo {
+					return false
+				}
+				for i, arg := range cc.Args {
+					if arg == v {
+						if i >= len(callee.Params) || !x.paramCellable(callee.Params[i], d+1) {
+							return false
+						}
+					}
+				}
+			default:
+				return false
+			}
+		}
+		return true
+	}
+	return ok(p, depth)
 }
